@@ -397,8 +397,15 @@ def _explicit_all_valid(fidx, fbits, vi, ci):
     G = SH.Shuffle(F, tuple(flips), tuple(vperm), tuple(S))
     if [list(c) for c in G.clauses()] != _apply(clauses, flips, vperm, S) or G.number_of_variables() != n:
         return False
-    if vperm == list(range(1, n + 1)) and S == list(range(m)):
-        G = SH.Shuffle(F, tuple(flips), range(1, n + 1), range(m))
+    def as_range(seq):
+        for r in (range(min(seq), max(seq) + 1), range(max(seq), min(seq) - 1, -1)):
+            if list(r) == list(seq):
+                return r
+        return None
+    rv = as_range(vperm) if vperm else None
+    rs = as_range(S) if S else None
+    if rv is not None or rs is not None:
+        G = SH.Shuffle(F, tuple(flips), rv if rv is not None else vperm, rs if rs is not None else S)
         if [list(c) for c in G.clauses()] != _apply(clauses, flips, vperm, S):
             return False
     return True
